@@ -197,7 +197,21 @@ func MakeReplayOverlay(repo, pkgPattern string, harnessFiles []string, outDir st
 		os.WriteFile(dst, buf.Bytes(), 0o644)
 		overlay[path] = dst
 	}
+	var foreign []string
 	for k := range cuts {
+		if !applied[k] {
+			foreign = append(foreign, k)
+		}
+	}
+	// cuts of functions in other packages of the module: hook variables (cuts_foreign.go)
+	hooked, err := applyForeignCuts(repo, pkgDir, pkgName, foreign, overlay, outDir)
+	if err != nil {
+		return nil, nil, err
+	}
+	for _, k := range hooked {
+		applied[k] = true
+	}
+	for _, k := range foreign {
 		if !applied[k] {
 			notApplied = append(notApplied, k)
 		}
